@@ -126,7 +126,6 @@ func joinSp(items []string) string {
 	return b.String()
 }
 
-
 // ---------- rstring ----------
 
 func SGet(key string) *Op {
